@@ -1,7 +1,7 @@
 import json, os, subprocess, time
 
 SPEC = {
-    "lean_modules": ["SemaModel.C09.Props"],
+    "lean_modules": ["SemaModel.C09.Props", "SemaModel.C09.CachePins"],
     "lean_dirs": ["SemaModel/C09"],
     "harness": "c09",
     "harness_args": {"quick": ["-tier", "quick"], "thorough": ["-tier", "thorough"]},
@@ -17,10 +17,11 @@ SPEC = {
         "Sema.C09.C09_shared_unsafe_w1",
         "Sema.C09.C09_shared_unsafe_w2a",
         "Sema.C09.C09_shared_unsafe_w2b",
+        "Sema.C09.C09_cache_protocol_pinned",
     ],
     "trusted_base": [
         "bbolt: atomic commit, one writer at a time, a read transaction sees the snapshot of its begin (MVCC), a bucket handle is dead once its transaction has ended - modelled (Model.lean: view copied at begin, closeTx), not verified",
-        "the cache manager is modelled at interface level (With / Commit / TryRLock fallback / scrapping / eviction); its lock protocol is C11's subject",
+        "the cache manager is modelled at interface level (With / Commit / TryRLock fallback / scrapping / eviction); its lock protocol is C11's subject; the lock skeleton regenerated from shard/cache/manager.go (tools/facts_c11) is pinned here too (C09_cache_protocol_pinned), so a changed manager protocol breaks this tie and starts C09's search",
         "Go memory model: data races on plain fields (ItemCache.bucket, sharedCacheElem.scrapped/lastAccessed, graphNode.edges ...) are outside the model; the stress part runs without the race detector",
         "the forced schedules pause goroutines only at transaction boundaries (storage proxy) and before each node visit of vamana.greedySearch (verif hook); finer interleavings are reached only by the unforced stress",
         "the harness' sequential reference (map uuid -> document, shallow-merge update, no repeated id inside a batch) and its canonical document rendering",
